@@ -1079,4 +1079,239 @@ theorem history_before_ginv {β : Type} (src : DKey → β) (ofIt : Nat → β) 
     · exact hG
     · exact ih _ (afterCall_ginv src ofIt store c hG) s hs
 
+/-! ### the model never takes an error branch (no ValueError / IndexError inside the cache logic) -/
+
+theorem foldlM_total {σ γ : Type} (P : σ → Prop) (f : σ → γ → Option σ) (l : List γ)
+    (hstep : ∀ x s, x ∈ l → P s → ∃ s1, f s x = some s1 ∧ P s1) :
+    ∀ (s : σ), P s → ∃ s', l.foldlM f s = some s' ∧ P s' := by
+  induction l with
+  | nil => intro s hs; exact ⟨s, by simp, hs⟩
+  | cons x xs ih =>
+    intro s hs
+    obtain ⟨s1, h1, hP1⟩ := hstep x s (List.mem_cons_self ..) hs
+    obtain ⟨s', h2, hP2⟩ := ih (fun y t hy => hstep y t (List.mem_cons_of_mem _ hy)) s1 hP1
+    exact ⟨s', by simp only [List.foldlM_cons, h1]; exact h2, hP2⟩
+
+theorem saveData_total {β : Type} (src : DKey → β) (ofIt : Nat → β) (R rl : Nat) (tmpIts : List Nat) (av : DName)
+    (itsSave : List Nat) (hsub : ∀ i ∈ itsSave, i ∈ tmpIts) (store : Store β) :
+    ∃ store', saveData ofIt store R rl tmpIts (fetch src R rl tmpIts) av itsSave = some store' := by
+  unfold saveData
+  have hl : ∀ i ∈ sortNat itsSave.eraseDups, i ∈ tmpIts :=
+    fun i hi => hsub i (List.mem_eraseDups.mp ((mem_sortNat _ _).mp hi))
+  generalize sortNat itsSave.eraseDups = l at hl
+  induction l generalizing store with
+  | nil => exact ⟨store, rfl⟩
+  | cons iit rest ih =>
+    have hmem : iit ∈ tmpIts := hl iit (List.mem_cons_self ..)
+    obtain ⟨idx, hidx⟩ := indexOf?_of_mem iit tmpIts hmem
+    have hget := indexOf?_get iit tmpIts idx hidx
+    simp only [List.foldlM_cons, hidx, fetch_get src R rl tmpIts _ idx iit hget, hget]
+    exact ih _ (fun i hi => hl i (List.mem_cons_of_mem _ hi))
+
+section cols
+variable {β : Type} (src : DKey → β) (ofIt : Nat → β) (R rl : Nat) (its : List Nat)
+
+theorem stepComp_total (tmpIts : List Nat) (s : State β) (av : DName)
+    (hsub : ∀ i ∈ getMiss s.missing av, i ∈ tmpIts) : ∃ s', stepComp src ofIt R rl its tmpIts s av = some s' := by
+  unfold stepComp
+  simp only
+  generalize hm : (if av = DName.t then (getMiss s.missing av).filter (fun i => !(its.contains i))
+    else getMiss s.missing av) = miss'
+  have hsub' : ∀ i ∈ miss', i ∈ tmpIts := by
+    intro i hi
+    rw [← hm] at hi
+    split at hi
+    · exact hsub i (List.mem_filter.mp hi).1
+    · exact hsub i hi
+  by_cases he : miss' = []
+  · simp [he]
+  · obtain ⟨store', hs⟩ := saveData_total src ofIt R rl tmpIts av miss' hsub' s.store
+    simp [he, hs]
+
+theorem stepVar_total (names : List DName) (m0 : Dict DName (List Nat)) (s : State β) (v : List Nat)
+    (hJ : J src R rl its names m0 s) (hv : ∀ c ∈ v, DName.var c ∈ names) (ht : DName.t ∈ names) :
+    ∃ s', stepVar src ofIt R rl its s v = some s' := by
+  unfold stepVar
+  simp only
+  split
+  · exact ⟨s, rfl⟩
+  · rename_i hne
+    have hvne : v ≠ [] := by
+      intro e; subst e; exact hne (by simp)
+    obtain ⟨c0, hc0⟩ := List.exists_mem_of_ne_nil v hvne
+    have hin : ∀ c ∈ v, ∀ i ∈ getMiss s.missing (DName.var c),
+        i ∈ sortNat ((v.map DName.var).flatMap fun av => getMiss s.missing av).eraseDups := by
+      intro c hc i hi
+      rw [mem_sortNat, List.mem_eraseDups]
+      exact List.mem_flatMap.mpr ⟨DName.var c, List.mem_map.mpr ⟨c, hc, rfl⟩, hi⟩
+    obtain ⟨s', h, _⟩ := foldlM_total (fun t : State β => J src R rl its names m0 t)
+      (stepComp src ofIt R rl its (sortNat ((v.map DName.var).flatMap fun av => getMiss s.missing av).eraseDups))
+      (v.map DName.var ++ [DName.t]) (by
+        intro x t hx hJt
+        have hxn : x ∈ names := by
+          rcases List.mem_append.mp hx with hx | hx
+          · obtain ⟨c, hc, rfl⟩ := List.mem_map.mp hx; exact hv c hc
+          · simp at hx; subst hx; exact ht
+        have hsub : ∀ i ∈ getMiss t.missing x,
+            i ∈ sortNat ((v.map DName.var).flatMap fun av => getMiss s.missing av).eraseDups := by
+          intro i hi
+          rcases List.mem_append.mp hx with hx | hx
+          · obtain ⟨c, hc, rfl⟩ := List.mem_map.mp hx
+            rw [hJt.mvar c, ← hJ.mvar c] at hi
+            exact hin c hc i hi
+          · simp at hx; subst hx
+            have := hJt.tsub i hi c0 (hv c0 hc0)
+            rw [← hJ.mvar c0] at this
+            exact hin c0 hc0 i this
+        obtain ⟨t1, h1⟩ := stepComp_total src ofIt R rl its _ t x hsub
+        exact ⟨t1, h1, (stepComp_J src ofIt R rl its names m0 _ t t1 x hJt hxn hsub h1).1⟩) s hJ
+    exact ⟨s', h⟩
+
+theorem initial_J (req : List (List Nat)) (store : Store β) (hI : Inv src ofIt store) (hT : StoreT store) :
+    J src R rl its (req.flatten.map DName.var ++ [DName.t])
+      (initMissing its (readCache store R rl its (req.flatten.map DName.var ++ [DName.t]))
+        (req.flatten.map DName.var ++ [DName.t]))
+      { col := readCache store R rl its (req.flatten.map DName.var ++ [DName.t]),
+        missing := initMissing its (readCache store R rl its (req.flatten.map DName.var ++ [DName.t]))
+          (req.flatten.map DName.var ++ [DName.t]),
+        store := store } := by
+  generalize hnames : req.flatten.map DName.var ++ [DName.t] = names
+  have hnoit : ∀ n ∈ names, n ≠ DName.it := by
+    intro n hn; rw [← hnames] at hn
+    rcases List.mem_append.mp hn with hn | hn
+    · obtain ⟨c, _, rfl⟩ := List.mem_map.mp hn; simp
+    · simp at hn; subst hn; simp
+  have htn : DName.t ∈ names := by rw [← hnames]; simp
+  have hcell : ∀ n ∈ names, ∀ (idx i : Nat), its[idx]? = some i →
+      (getCol (readCache store R rl its names) n)[idx]? = some (store.get? ⟨R, i, n, rl⟩) := by
+    intro n hn idx i hi
+    rw [readCache_col R rl its store names n hn, List.getElem?_map, hi]; rfl
+  refine ⟨?_, fun _ => rfl, ?_, ?_, ?_⟩
+  · intro n hn idx i hi
+    have hc := hcell n hn idx i hi
+    cases hg : store.get? ⟨R, i, n, rl⟩ with
+    | none =>
+      right
+      simp only
+      rw [hc, hg]
+      refine ⟨rfl, ?_⟩
+      rw [initMissing_get its _ names n hn, mem_missingOf]
+      exact ⟨idx, hi, by rw [hc, hg]⟩
+    | some x =>
+      left
+      simp only
+      rw [hc, hg]
+      have := hI _ (get?_mem store _ x hg)
+      simp only at this
+      rw [this]
+      have hne := hnoit n hn
+      cases n <;> simp_all [truth]
+  · intro i hi v hv
+    simp only at hi
+    rw [initMissing_get its _ names _ htn, mem_missingOf] at hi
+    obtain ⟨idx, h1, h2⟩ := hi
+    rw [hcell _ htn idx i h1] at h2
+    have htnone : store.get? ⟨R, i, DName.t, rl⟩ = none := by simpa using h2
+    have hvnone : store.get? ⟨R, i, DName.var v, rl⟩ = none := by
+      rw [get?_none_iff] at htnone ⊢
+      intro hk
+      exact htnone (hT _ hk v rfl)
+    rw [initMissing_get its _ names _ hv, mem_missingOf]
+    exact ⟨idx, h1, by rw [hcell _ hv idx i h1, hvnone]⟩
+  · exact (foldl_set_keys _ names [] (by simp)).1
+  · intro n hn
+    rcases (foldl_set_keys _ names [] (by simp)).2 n hn with h | h
+    · exact h
+    · cases h
+
+theorem readRestart_total (grouped : Bool) (req : List (List Nat)) (store : Store β)
+    (hI : Inv src ofIt store) (hT : StoreT store) :
+    ∃ r, readRestart src ofIt grouped req store R rl its = some r := by
+  unfold readRestart
+  simp only
+  have hJ0 := initial_J src ofIt R rl its req store hI hT
+  obtain ⟨st, h, _⟩ := foldlM_total
+    (fun t : State β => J src R rl its (req.flatten.map DName.var ++ [DName.t])
+      (initMissing its (readCache store R rl its (req.flatten.map DName.var ++ [DName.t]))
+        (req.flatten.map DName.var ++ [DName.t])) t)
+    (stepVar src ofIt R rl its) (if grouped then req else req.flatten.map fun c => [c]) (by
+      intro v t hv hJt
+      have hvc : ∀ c ∈ v, DName.var c ∈ req.flatten.map DName.var ++ [DName.t] := by
+        intro c hc
+        apply List.mem_append.mpr; left
+        apply List.mem_map.mpr
+        refine ⟨c, ?_, rfl⟩
+        cases grouped with
+        | true => simp only [if_true] at hv; exact List.mem_flatten.mpr ⟨v, hv, hc⟩
+        | false =>
+          simp only [Bool.false_eq_true, ↓reduceIte] at hv
+          obtain ⟨c', hc', rfl⟩ := List.mem_map.mp hv
+          rw [List.mem_singleton.mp hc]; exact hc'
+      have htn : DName.t ∈ req.flatten.map DName.var ++ [DName.t] := by simp
+      obtain ⟨t1, h1⟩ := stepVar_total src ofIt R rl its _ _ t v hJt hvc htn
+      exact ⟨t1, h1, (stepVar_J src ofIt R rl its _ _ t t1 v hJt hvc htn h1).1⟩) _ hJ0
+  rw [h]
+  exact ⟨_, rfl⟩
+
+end cols
+
+theorem readAll_total {β : Type} (src : DKey → β) (ofIt : Nat → β) (grouped split : Bool) (req : List (List Nat))
+    (rl : Nat) (todo : List (Nat × List Nat)) (store : Store β) (hG : GInv src ofIt store) :
+    ∃ out store', readAll src ofIt grouped split req rl todo store = some (out, store') ∧
+      ((∃ rt ∈ todo, rt.2 ≠ []) → out ≠ []) := by
+  induction todo generalizing store with
+  | nil => exact ⟨[], store, rfl, by rintro ⟨rt, h, _⟩; cases h⟩
+  | cons rt rest ih =>
+    obtain ⟨R, td⟩ := rt
+    simp only [readAll]
+    split
+    · rename_i hnil
+      obtain ⟨out, store', h, hne⟩ := ih store hG
+      refine ⟨out, store', h, ?_⟩
+      rintro ⟨rt, hrt, hrtne⟩
+      rcases List.mem_cons.mp hrt with rfl | hrt
+      · exact absurd hnil hrtne
+      · exact hne ⟨rt, hrt, hrtne⟩
+    · cases split with
+      | true =>
+        obtain ⟨⟨cols, store1⟩, hr⟩ := readRestart_total src ofIt R rl td grouped req store hG.1 hG.2
+        have hG1 : GInv src ofIt store1 :=
+          readRestart_pres src ofIt _ (savePres_ginv src ofIt) grouped req store R rl td cols store1 hG hr
+        obtain ⟨out, store', h, _⟩ := ih store1 hG1
+        exact ⟨(R, td, cols) :: out, store', by simp [hr, h], fun _ => by simp⟩
+      | false =>
+        obtain ⟨out, store', h, _⟩ := ih store hG
+        exact ⟨(R, td, readDirect src req R rl td) :: out, store', by simp [h], fun _ => by simp⟩
+
+/-- the iterations each catalogued restart is asked to read -/
+def todoOf (avail : List Avail) (restart : Option Nat) (its : List Nat) : List (Nat × List Nat) :=
+  match restart with
+  | none => itToDo avail (sortedSet its)
+  | some r => (avail.filter fun a => a.1 == r).map fun a =>
+      (a.1, (sortedSet its).filter fun iit => decide (a.2.1 ≤ iit ∧ iit ≤ a.2.2))
+
+/-- **the cache logic never raises**: on a cache with the invariant, a call
+returns whenever some restart holds one of the requested iterations -/
+theorem readData_total {β : Type} (src : DKey → β) (ofIt : Nat → β) (avail : List Avail) (grouped : Bool)
+    (req : List (List Nat)) (its : List Nat) (rl : Nat) (restart : Option Nat) (split : Bool)
+    (store : Store β) (hG : GInv src ofIt store) (hfound : ∃ rt ∈ todoOf avail restart its, rt.2 ≠ []) :
+    ∃ r, readData src ofIt avail grouped req its rl restart split store = some r := by
+  obtain ⟨out, store', h, hne⟩ := readAll_total src ofIt grouped split req rl (todoOf avail restart its) store hG
+  have hout := hne hfound
+  unfold readData
+  cases restart with
+  | none =>
+    simp only [todoOf] at h
+    simp only [h]
+    cases out with
+    | nil => exact absurd rfl hout
+    | cons d ds => exact ⟨_, rfl⟩
+  | some r =>
+    simp only [todoOf] at h
+    simp only [h]
+    cases out with
+    | nil => exact absurd rfl hout
+    | cons d ds => exact ⟨_, rfl⟩
+
+
 end AurelVerif.ReadCacheLemmas
